@@ -387,6 +387,194 @@ fn c07_numbers(job: &Job, sh: &mut Shard) {
     }
 }
 
+/// Messages whose SIZE matters (the exhaustive strings are short and the number grid small): long
+/// lines, long payloads, many elements, nesting right at the limit, every small integer. Generated
+/// from a compact spec so that a replay file can rebuild them.
+pub fn sized_message(gen: &str, n: usize, fill: u8) -> Vec<u8> {
+    match gen {
+        "bulk" => {
+            let mut m = format!("${}\r\n", n).into_bytes();
+            m.extend(std::iter::repeat(fill).take(n));
+            m.extend_from_slice(b"\r\n");
+            m
+        }
+        "simple" | "error" => {
+            let mut m = vec![if gen == "simple" { b'+' } else { b'-' }];
+            m.extend(std::iter::repeat(fill).take(n));
+            m.extend_from_slice(b"\r\n");
+            m
+        }
+        "array_ints" => {
+            let mut m = format!("*{}\r\n", n).into_bytes();
+            for i in 0..n {
+                m.extend_from_slice(format!(":{}\r\n", i).as_bytes());
+            }
+            m
+        }
+        "array_bulks" => {
+            let mut m = format!("*{}\r\n", n).into_bytes();
+            for i in 0..n {
+                m.extend_from_slice(format!("${}\r\n", i % 7).as_bytes());
+                m.extend(std::iter::repeat(fill).take(i % 7));
+                m.extend_from_slice(b"\r\n");
+            }
+            m
+        }
+        "nest" => {
+            let mut m = b"*1\r\n".repeat(n);
+            m.extend_from_slice(b":7\r\n");
+            m
+        }
+        "nest_wide" => {
+            // n levels, each an array of two elements: an integer and the next level
+            let mut m = vec![];
+            for _ in 0..n {
+                m.extend_from_slice(b"*2\r\n:3\r\n");
+            }
+            m.extend_from_slice(b"$2\r\nok\r\n");
+            m
+        }
+        "int" => format!(":{}\r\n", n as i64 - 100_000).into_bytes(),
+        g if g.starts_with("nt") && g.len() == 5 => {
+            // a number line of n digits ended by an arbitrary byte (then CR LF): carrier, sign, nesting
+            let gb = g.as_bytes();
+            let mut m = vec![];
+            if gb[4] == b'N' {
+                m.extend_from_slice(b"*2\r\n$3\r\nabc\r\n");
+            }
+            m.push(gb[2]);
+            if gb[3] != b'n' {
+                m.push(gb[3]);
+            }
+            m.extend((0..n).map(|i| b"1234567890"[i % 10]));
+            m.push(fill);
+            m.extend_from_slice(b"\r\n");
+            m
+        }
+        "set_value" => {
+            let mut m = b"*3\r\n$3\r\nSET\r\n$1\r\nk\r\n".to_vec();
+            m.extend_from_slice(&sized_message("bulk", n, fill));
+            m
+        }
+        "set_key" => {
+            let mut m = b"*3\r\n$3\r\nSET\r\n".to_vec();
+            m.extend_from_slice(&sized_message("bulk", n, fill));
+            m.extend_from_slice(b"$1\r\nv\r\n");
+            m
+        }
+        _ => vec![],
+    }
+}
+
+fn sized_specs(tier: Tier) -> Vec<(&'static str, usize, u8)> {
+    let mut v = vec![];
+    let lens: Vec<usize> = vec![0, 1, 2, 3, 9, 10, 11, 99, 100, 101, 127, 128, 250, 251, 252, 253, 254, 255, 256, 257, 999, 1000, 1001, 1023, 1024, 1025, 4095, 4096, 4097, 8180, 8181, 8182, 8183, 8184, 8185, 8186, 8187, 8188, 8189, 8190, 8191, 8192, 8193, 8194, 9999, 10_000, 10_001, 16_383, 16_384, 16_385, 65_534, 65_535, 65_536, 65_537, 99_999, 100_000, 100_001, 1 << 20];
+    for gen in ["bulk", "simple", "error", "set_value", "set_key"] {
+        for &n in &lens {
+            for fill in [b'a', 0x80u8, 0xff, b'0', b'\n', b'\r'] {
+                // a lone CR / LF inside a line is a different frame for simple strings: keep them to bulk payloads
+                if (fill == b'\n' || fill == b'\r') && !matches!(gen, "bulk" | "set_value" | "set_key") {
+                    continue;
+                }
+                if n > 100_001 && fill != b'a' {
+                    continue;
+                }
+                v.push((gen, n, fill));
+            }
+        }
+    }
+    for gen in ["array_ints", "array_bulks"] {
+        for n in [0usize, 1, 2, 9, 10, 11, 99, 100, 101, 255, 256, 257, 999, 1000, 1001, 4096, 65_535, 65_536, 65_537] {
+            if n > 5000 && tier == Tier::Quick && gen == "array_bulks" {
+                continue;
+            }
+            v.push((gen, n, b'e'));
+        }
+    }
+    for n in 0..=40usize {
+        v.push(("nest", n, 0));
+        v.push(("nest_wide", n, 0));
+    }
+    // number lines of every length ended by every kind of byte (the error paths of the number reader)
+    for g in ["nt:nT", "nt:-T", "nt:+T", "nt$nT", "nt$-T", "nt$+T", "nt*nT", "nt*-T", "nt*+T", "nt:nN", "nt:-N", "nt$nN", "nt*nN"] {
+        let mut ns: Vec<usize> = (0..=70).collect();
+        ns.extend([99, 100, 127, 128, 255, 256, 1000, 4096, 8190, 8191, 8192, 8193, 65_536]);
+        for n in ns {
+            for term in [b'x', b' ', 0u8, b'\n', b'\r', b'-', b'.', 0x7f, 0x80, 0xbf, 0xc3, 0xe2, 0xf0, 0xff] {
+                if n > 300 && !matches!(term, b'x' | 0xff | b'\r') {
+                    continue;
+                }
+                v.push((g, n, term));
+            }
+        }
+    }
+    // every integer in [-100 000, 100 000] (quick: [-3000, 3000])
+    let r = tier.pick(3000usize, 100_000usize);
+    for n in (100_000 - r)..=(100_000 + r) {
+        v.push(("int", n, 0));
+    }
+    v
+}
+
+fn c07_sized(job: &Job, sh: &mut Shard) {
+    let specs = sized_specs(job.tier);
+    let mut n = 0u64;
+    for (i, (gen, len, fill)) in specs.iter().enumerate() {
+        if i % job.nshards != job.shard {
+            continue;
+        }
+        n += 1;
+        let m = sized_message(gen, *len, *fill);
+        let what = format!("sized message {}({}, fill {:#04x})", gen, len, fill);
+        let report = |sh: &mut Shard, class: &str, msg: String, trunc: Option<usize>| {
+            let shown: Vec<u8> = m.iter().cloned().take(60).collect();
+            sh.violate(Violation { class: format!("C07:{}", class), msg: format!("{} | {} ({} bytes, starts {}){}", msg, what, m.len(), hex_long(&shown), trunc.map(|k| format!(" truncated to {} bytes", k)).unwrap_or_default()), case: json!({"engine": "resp", "kind": "sized", "gen": gen, "n": len, "fill": fill, "truncate_to": trunc}) });
+        };
+        sh.evaluations += 1;
+        sh.transitions += 3;
+        for (class, msg) in judge_input(&m, false) {
+            report(sh, &class, msg, None);
+        }
+        // followed by the start of another frame in the same buffer (as the connection sees it)
+        let mut m2 = m.clone();
+        m2.extend_from_slice(b":5\r\n+x");
+        for (class, msg) in judge_input(&m2, false) {
+            report(sh, &class, format!("{} [followed by \":5\\r\\n+x\" in the same buffer]", msg), None);
+        }
+        // truncation points: all for short messages, else the first / last 24 and the ones around the
+        // 8 KiB and 64 KiB marks
+        let full = call_parse(&m);
+        let ks: Vec<usize> = if m.len() <= 600 { (0..m.len()).collect() } else { (0..24).chain(8180..8200).chain(65_530..65_545).chain(m.len() - 24..m.len()).filter(|k| *k < m.len()).collect() };
+        for k in ks {
+            sh.evaluations += 1;
+            let pre = &m[..k];
+            let c = call_check(pre);
+            let p = call_parse(pre);
+            if let CRes::Panic(e) = &c {
+                report(sh, "check-panics", e.clone(), Some(k));
+            }
+            if let PRes::Panic(e) = &p {
+                report(sh, "parse-panics", e.clone(), Some(k));
+            }
+            if let CRes::Ok(nn) = &c {
+                // a strict prefix of a single frame can not be a complete frame of the same kind
+                if let (PRes::Ok(f, _), PRes::Ok(ff, fl)) = (&call_parse(&pre[..(*nn).min(pre.len())]), &full) {
+                    if f == ff && *fl == m.len() {
+                        report(sh, "strict-prefix-accepted-with-the-same-frame", format!("prefix of {} bytes parses to the whole frame", k), Some(k));
+                    }
+                }
+            }
+            for (class, msg) in judge_input(pre, false) {
+                report(sh, &class, msg, Some(k));
+            }
+        }
+        sh.nontrivial.insert(fnv(format!("{}{}{}", gen, len, fill).as_bytes()));
+        sh.states.insert(fnv(format!("{}|{:?}", gen, match &full { PRes::Ok(_, n) => format!("ok{}", n), PRes::Incomplete => "inc".into(), PRes::Error(e) => e.clone(), PRes::Panic(_) => "panic".into() }).as_bytes()));
+        sh.outcome(format!("sized:{}:{}", gen, match &full { PRes::Ok(..) => "ok", PRes::Incomplete => "incomplete", PRes::Error(_) => "error", PRes::Panic(_) => "PANIC" }));
+    }
+    sh.count("sized-messages", n);
+}
+
 /// Deep nesting and huge declared lengths: each in a forked child, on the main stack (8 MiB) and on
 /// a 2 MiB thread (tokio's worker stack size); the child's death is the observation.
 fn c07_deep(job: &Job, sh: &mut Shard) {
@@ -488,6 +676,11 @@ pub struct SState {
     pub written: Vec<u8>,
     /// the script ran dry: the stream stays pending for ever
     pub starved: bool,
+    /// write side: how many bytes each successive poll_write call accepts (0 = Pending once);
+    /// when the list is used up, `write_cap_rest` applies to every further call (0 = unlimited)
+    pub write_caps: VecDeque<usize>,
+    pub write_cap_rest: usize,
+    pub write_calls: usize,
 }
 
 #[derive(Clone)]
@@ -520,8 +713,17 @@ impl AsyncRead for ScriptStream {
 }
 impl AsyncWrite for ScriptStream {
     fn poll_write(self: Pin<&mut Self>, _cx: &mut Context<'_>, buf: &[u8]) -> Poll<std::io::Result<usize>> {
-        self.0.borrow_mut().written.extend_from_slice(buf);
-        Poll::Ready(Ok(buf.len()))
+        let mut st = self.0.borrow_mut();
+        st.write_calls += 1;
+        let cap = match st.write_caps.pop_front() {
+            Some(0) => return Poll::Pending,
+            Some(c) => c,
+            None if st.write_cap_rest > 0 => st.write_cap_rest,
+            None => usize::MAX,
+        };
+        let n = buf.len().min(cap);
+        st.written.extend_from_slice(&buf[..n]);
+        Poll::Ready(Ok(n))
     }
     fn poll_flush(self: Pin<&mut Self>, _cx: &mut Context<'_>) -> Poll<std::io::Result<()>> {
         Poll::Ready(Ok(()))
@@ -599,8 +801,14 @@ pub fn read_all(mut script: Vec<SEv>) -> (Vec<RFrame>, ReadEnd) {
 
 /// Encode frames with the real `write_frame`.
 pub fn write_all(frames: &[RFrame]) -> Result<Vec<u8>, String> {
+    write_all_with(frames, &[], 0)
+}
+
+/// The same over a transport that accepts only `caps[i]` bytes in its i-th write call (0 = not
+/// ready once) and `rest` bytes in every later one (0 = everything).
+pub fn write_all_with(frames: &[RFrame], caps: &[usize], rest: usize) -> Result<Vec<u8>, String> {
     std::panic::catch_unwind(std::panic::AssertUnwindSafe(|| {
-        let st = Rc::new(RefCell::new(SState::default()));
+        let st = Rc::new(RefCell::new(SState { write_caps: caps.iter().cloned().collect(), write_cap_rest: rest, ..Default::default() }));
         let mut conn = Connection::new(ScriptStream(st.clone()));
         for f in frames {
             let fr = from_r(f);
@@ -767,6 +975,23 @@ fn c08(job: &Job, sh: &mut Shard, t0: Instant) {
             viol8(sh, "encoding-differs-from-reference", format!("wrote {:?}, reference {:?}", String::from_utf8_lossy(&enc[..enc.len().min(80)]), String::from_utf8_lossy(&want[..want.len().min(80)])), frames, json!(null));
             continue;
         }
+        // the same frames over a transport that takes less than it is offered (short writes and
+        // not-ready answers are the write-side counterpart of segmentation): same bytes
+        for (caps, rest) in &write_scripts() {
+            sh.evaluations += 1;
+            match write_all_with(frames, caps, *rest) {
+                Ok(e2) if e2 == want => {}
+                Ok(e2) => {
+                    let d = e2.iter().zip(want.iter()).position(|(a, b)| a != b).unwrap_or(e2.len().min(want.len()));
+                    viol8(sh, "encoding-depends-on-how-much-the-transport-accepts", format!("transport accepting {:?} then {} bytes per write call: {} bytes written, reference {} bytes, first difference at byte {}", caps, if *rest == 0 { "all".to_string() } else { rest.to_string() }, e2.len(), want.len(), d), frames, json!({"write_caps": caps, "write_cap_rest": rest}));
+                    break;
+                }
+                Err(m) => {
+                    viol8(sh, if m.contains("PANIC") { "write-panics" } else { "write-fails" }, format!("{} (transport accepting {:?} then {} bytes per call)", m, caps, rest), frames, json!({"write_caps": caps, "write_cap_rest": rest}));
+                    break;
+                }
+            }
+        }
         let n = enc.len();
         // every segmentation, then EOF: the frames, then a clean end
         for cuts in cut_sets(n, job.tier) {
@@ -924,6 +1149,7 @@ pub fn worker(job: &Job) -> Shard {
     match job.prop.as_str() {
         "C07" => {
             c07_numbers(job, &mut sh);
+            c07_sized(job, &mut sh);
             c07_deep(job, &mut sh);
             c07_strings(job, &mut sh, t0);
         }
@@ -940,6 +1166,19 @@ pub fn replay(prop: &str, case: &Value) -> Vec<Violation> {
             let bytes: Vec<u8> = case["bytes"].as_array().map(|a| a.iter().map(|b| b.as_u64().unwrap() as u8).collect()).unwrap_or_default();
             for (class, msg) in judge_input(&bytes, true) {
                 viol(&mut sh, prop, &class, msg, &bytes, "replay");
+            }
+        }
+        "sized" => {
+            let mut bytes = sized_message(case["gen"].as_str().unwrap_or(""), case["n"].as_u64().unwrap_or(0) as usize, case["fill"].as_u64().unwrap_or(0) as u8);
+            if let Some(k) = case["truncate_to"].as_u64() {
+                bytes.truncate(k as usize);
+            }
+            let mut with_tail = bytes.clone();
+            with_tail.extend_from_slice(b":5\r\n+x");
+            for b in [bytes, with_tail] {
+                for (class, msg) in judge_input(&b, false) {
+                    viol(&mut sh, prop, &class, msg, &b, "replay of a sized message");
+                }
             }
         }
         "roundtrip" => {
@@ -961,6 +1200,12 @@ pub fn replay(prop: &str, case: &Value) -> Vec<Violation> {
     sh.violations
 }
 
+/// Transports that accept less than they are offered: (bytes accepted by the first write calls
+/// (0 = not ready once), bytes accepted by every later call (0 = everything)).
+fn write_scripts() -> Vec<(Vec<usize>, usize)> {
+    vec![(vec![], 1), (vec![], 7), (vec![], 100), (vec![], 4096), (vec![], 8191), (vec![0, 3, 0, 1], 0), (vec![1], 0), (vec![0, 0, 5, 0], 1000), (vec![8192], 1), (vec![4, 8188, 1], 3)]
+}
+
 /// The C08 battery for one explicit frame sequence (replay).
 fn c08_one(frames: &[RFrame], sh: &mut Shard, _t0: Instant) {
     let enc = match write_all(frames) {
@@ -970,6 +1215,22 @@ fn c08_one(frames: &[RFrame], sh: &mut Shard, _t0: Instant) {
             return;
         }
     };
+    let mut want = vec![];
+    for f in frames {
+        resp_encode(f, &mut want);
+    }
+    if enc != want {
+        sh.violate(Violation { class: "C08:encoding-differs-from-reference".into(), msg: format!("{} bytes written, reference {}", enc.len(), want.len()), case: json!({"engine": "resp", "kind": "roundtrip", "frames": frames.iter().map(frame_json).collect::<Vec<_>>()}) });
+    }
+    for (caps, rest) in &write_scripts() {
+        match write_all_with(frames, caps, *rest) {
+            Ok(e2) if e2 == want => {}
+            other => {
+                sh.violate(Violation { class: "C08:encoding-depends-on-how-much-the-transport-accepts".into(), msg: format!("transport accepting {:?} then {} bytes per call: {:?}", caps, rest, other.map(|b| b.len())), case: json!({"engine": "resp", "kind": "roundtrip", "frames": frames.iter().map(frame_json).collect::<Vec<_>>()}) });
+                break;
+            }
+        }
+    }
     for k in 0..=enc.len() {
         let (got, end) = read_all(vec![SEv::Data(enc[..k].to_vec())]);
         if let ReadEnd::Panic(m) = &end {
